@@ -134,13 +134,20 @@ func runC13Race(c *core.Ctx) {
 		scs = append(scs, sc{v, n, "never", 2}, sc{v, n, "never", 0})
 		reps = 3
 	}
+	coldMode := len(scs) > 0
 	for _, v := range []int{1, 2} {
-		if len(scs) > 0 {
+		if coldMode {
 			break
 		}
 		for _, n := range []int{1, 2, 4, 16, 64} {
 			scs = append(scs, sc{v, n, "never", 2}, sc{v, n, "concurrent", 5}, sc{v, n, "before", 2}, sc{v, n, "concurrent-unattainable", 243}, sc{v, n, "deadline-unattainable", 243}, sc{v, n, "expired-deadline", 2},
-				sc{v, n, "never", 0}, sc{v, n, "far-deadline-cancelled-unattainable", 243}, sc{v, n, "far-deadline-never", 2})
+				sc{v, n, "never", 0}, sc{v, n, "far-deadline-cancelled-unattainable", 243}, sc{v, n, "far-deadline-never", 2},
+				sc{v, n, "concurrent-unattainable-max-product", 243})
+		}
+		// another Worker of the same version is mining (unattainable target, twice as many goroutines as processors) while
+		// this call is cancelled: calls on different Workers with different contexts do not wait for each other
+		for _, n := range []int{1, 2} {
+			scs = append(scs, sc{v, n, "concurrent-unattainable-while-another-worker-mines", 243})
 		}
 	}
 	for _, s := range scs {
@@ -151,6 +158,7 @@ func runC13Race(c *core.Ctx) {
 		if s.workers >= 16 {
 			r = reps / 5
 		}
+		var bgCancel context.CancelFunc
 		for i := 0; i < r && problems == 0; i++ {
 			data := []byte{'r', byte(s.version), byte(s.workers), byte(i), byte(i >> 8), 0, 0, 0}
 			ctx, cancel := context.WithCancel(context.Background())
@@ -175,6 +183,24 @@ func runC13Race(c *core.Ctx) {
 			if strings.HasPrefix(s.cancel, "concurrent") || strings.Contains(s.cancel, "-cancelled-") {
 				go func(d time.Duration) { time.Sleep(d); cancel() }(time.Duration(i%7) * 50 * time.Microsecond)
 			}
+			if strings.HasSuffix(s.cancel, "-max-product") {
+				data = data[:7] // message length 15 divides 2^64-1: v2 length*target can be exactly 2^64-1, the largest legal product
+			}
+			if strings.HasSuffix(s.cancel, "-while-another-worker-mines") && i == 0 {
+				var bgCtx context.Context
+				bgCtx, bgCancel = context.WithCancel(context.Background())
+				bgStarted := make(chan struct{})
+				go func() {
+					close(bgStarted)
+					if s.version == 1 {
+						pow.New(2*runtime.GOMAXPROCS(0)).Mine(bgCtx, []byte("background miner"), math.Pow(3, 242)/24*1.5)
+					} else {
+						powv2.New(2*runtime.GOMAXPROCS(0)).Mine(bgCtx, []byte("background miner"), math.MaxUint64/24)
+					}
+				}()
+				<-bgStarted
+				time.Sleep(20 * time.Millisecond) // let the other Worker's goroutines get going
+			}
 			type result struct {
 				nonce uint64
 				err   error
@@ -192,7 +218,7 @@ func runC13Race(c *core.Ctx) {
 				} else {
 					t := uint64(math.Pow(3, float64(s.zeros))) / 16
 					if s.zeros == 243 {
-						t = math.MaxUint64 / 16
+						t = math.MaxUint64 / uint64(len(data)+8)
 					}
 					n, err = powv2.New(s.workers).Mine(ctx, data, t)
 				}
@@ -224,6 +250,9 @@ func runC13Race(c *core.Ctx) {
 				notes = append(notes, fmt.Sprintf("v%d N=%d cancel=%s: Mine did not return within 60 s", s.version, s.workers, s.cancel))
 			}
 			cancel()
+		}
+		if bgCancel != nil {
+			bgCancel() // the other Worker stops; its goroutines drain with the rest
 		}
 		// goroutines must drain
 		deadline := time.Now().Add(30 * time.Second)
